@@ -25,6 +25,8 @@ def main():
     ap.add_argument("--layouts", default=None, help="comma separated subset of layouts (C16/C01)")
     args = ap.parse_args()
     t0 = time.time()
+    if args.out:
+        os.environ["VERIF_REPLAY_DIR"] = os.path.abspath(args.out) + ".replays"
     import common
     if args.prop == "C06":
         import c06
@@ -48,6 +50,7 @@ def main():
     res["seed"] = common.SEED
     res["wall_s"] = round(time.time() - t0, 2)
     res["solvers"] = common.solver_versions()
+    res["replay_binaries"] = dict(common._replay_bins)      # feature set -> binary (`replay_e2 < request.json` re-runs a replay)
     for ob in res["obligations"]:
         print("%-12s %-34s q=%-4d %7.2fs  %s" % (ob["verdict"].upper(), ob["id"], ob["queries"], ob["solver_s"],
                                                (ob["detail"] or "")[:150].replace("\n", " ")))
